@@ -12,6 +12,7 @@ mod c11;
 mod c12;
 mod c13;
 mod c14;
+mod c15;
 mod c16;
 mod c17;
 mod c18;
@@ -51,6 +52,7 @@ fn main() {
         "C12" => c12::run(&cli, &rep),
         "C13" => c13::run(&cli, &rep),
         "C14" => c14::run(&cli, &rep),
+        "C15" => c15::run(&cli, &rep),
         "C16" => c16::run(&cli, &rep),
         "C17" => c17::run(&cli, &rep),
         "C18" => c18::run(&cli, &rep),
